@@ -322,7 +322,7 @@ def plan(prop, tier):
     if prop == "C09":
         return harness_plan(prop, tier, [("rel", 10, 1200), ("asan", 6, 250)], [("rel", 14, 60000), ("asan", 14, 12000)])
     if prop == "C10":
-        return harness_plan(prop, tier, [("rel", 10, 200), ("asan", 6, 40)], [("rel", 14, 20000), ("asan", 14, 4000)])
+        return harness_plan(prop, tier, [("rel", 10, 200), ("asan", 6, 40)], [("rel", 14, 8000), ("asan", 14, 1600)])
     if prop == "C12":
         c = harness_plan(prop, tier, [("rel", 10, 1000), ("asan", 6, 200)], [("rel", 14, 60000), ("asan", 14, 12000)])
         clean_emit(c)
